@@ -314,10 +314,10 @@ impl World {
                         && !m.reject
                         && m.term == c.pre.term
                         && c.pre.pr(m.from).map(|q| m.index <= q.matched && q.state == ProgressState::Probe).unwrap_or(false);
-                    if stale_ack { None } else { Some(m.from) }
+                    // a (forwarded) transfer request names the peer but is no news from it either
+                    if stale_ack || m.get_msg_type() == MessageType::MsgTransferLeader { None } else { Some(m.from) }
                 }
                 CallKind::ReportSnapshot { peer, .. } | CallKind::ReportUnreachable { peer } => Some(*peer),
-                CallKind::Transfer { target } => Some(*target),
                 CallKind::Knob(Knob::MaxInflight { peer, .. }) => Some(*peer),
                 _ => None,
             };
